@@ -245,6 +245,30 @@ fn minimise(w: &mut World, plan: &SchedPlan, viol: &SViolation) -> (SchedPlan, S
             attempt!(c);
         }
     }
+    // shortest prefix of the explicit schedule that still fails (after it, the lowest runnable thread runs)
+    if let Schedule::Explicit(v) = cur.schedule.clone() {
+        let (mut lo, mut hi) = (0usize, v.len());
+        while lo < hi && tries < 4000 {
+            let mid = (lo + hi) / 2;
+            let mut c = cur.clone();
+            c.schedule = Schedule::Explicit(v[..mid].to_vec());
+            tries += 1;
+            if let Some(nv) = fails_same(w, &c, &class) {
+                hi = mid;
+                curv = nv;
+            } else {
+                lo = mid + 1;
+            }
+        }
+        if hi < v.len() {
+            let mut c = cur.clone();
+            c.schedule = Schedule::Explicit(v[..hi].to_vec());
+            if let Some(nv) = fails_same(w, &c, &class) {
+                cur = c;
+                curv = nv;
+            }
+        }
+    }
     (cur, curv, tries)
 }
 
@@ -297,6 +321,7 @@ pub fn cmd_sched(m: &HashMap<String, String>) -> i32 {
 
     let mut counters = Counters::default();
     let mut dg = Digest::new();
+    let mut tdg = Digest::new();
     let mut runs = 0u64;
     let mut ops = 0u64;
     let mut decisions = 0u64;
@@ -356,6 +381,7 @@ pub fn cmd_sched(m: &HashMap<String, String>) -> i32 {
         decisions += r.decisions.len() as u64;
         dg.u64(idx);
         dg.u64(r.digest);
+        tdg.u64(r.trace_digest);
         if m.contains_key("dump-digests") {
             eprintln!("DIGEST {} {:016x} decisions={} blocked={} sync={}", idx, r.digest, r.decisions.len(), r.counters.get("threads_found_blocked_on_a_lock"), r.counters.get("sync_points_reached"));
         }
@@ -411,6 +437,7 @@ pub fn cmd_sched(m: &HashMap<String, String>) -> i32 {
         .set("decisions", J::Int(decisions as i64))
         .set("reference_images_computed", J::u(w.refs.computed))
         .set("digest", J::s(&format!("{:016x}", dg.finish())))
+        .set("trace_digest", J::s(&format!("{:016x}", tdg.finish())))
         .set("counters", counters.to_json())
         .set("op_kinds", kinds.to_json())
         .set("schedule_hashes", J::Arr(sched_hashes.iter().map(|h| J::s(&format!("{:x}", h))).collect()))
